@@ -264,6 +264,16 @@ def np_allclose(ip, args, kwargs, node):
     return m
 
 
+def np_array_equal(ip, args, kwargs, node):
+    ts = [ip.term_of(a, node)[0] for a in args[:2]]
+    if not any(P.is_pw(t) for t in ts) and ts[0].equals(ts[1]):
+        return TRUE
+    m = Mask(P.Cond.flag('array_equal(%s,%s)' % tuple(sorted(P.show(t) for t in ts))), 'scalar')
+    m.array_equal = ts
+    ip.notes.append(('array_equal', {'args': ts, 'loc': ip.loc(node)}))
+    return m
+
+
 def np_loadtxt(ip, args, kwargs, node):
     ip.notes.append(('loadtxt', {'args': args, 'loc': ip.loc(node)}))
     name = 'fileData'
@@ -707,7 +717,7 @@ CALLS = {
     'numpy.arange': np_arange, 'numpy.linspace': np_linspace,
     'numpy.any': np_reduce('any'), 'numpy.all': np_reduce('all'), 'numpy.min': np_reduce('min'),
     'numpy.max': np_reduce('max'), 'numpy.sum': np_reduce('sum'),
-    'numpy.allclose': np_allclose, 'numpy.loadtxt': np_loadtxt,
+    'numpy.allclose': np_allclose, 'numpy.array_equal': np_array_equal, 'numpy.loadtxt': np_loadtxt,
     'numpy.polyfit': np_polyfit, 'numpy.poly1d': np_poly1d,
     'numpy.einsum': np_einsum, 'numpy.linalg.inv': np_inv,
     'numpy.errstate': np_errstate,
